@@ -1,8 +1,8 @@
 """C18 -- tensor conversion round trips; tensor graph operators match their graph meaning.
 
 Correspondence: Model.Torch.{its_to_torch1, its_to_torch_list, its_from_torch, node_induced_subgraph,
-edge_induced_subgraph, get_adjacency_matrix, prune} ~ fgutils.torch.utils.{_its_to_torch, its_to_torch,
-its_from_torch (+ _build_its, _its_from_torch_data, _its_from_torch_databatch), get_adjacency_matrix, prune}
+edge_induced_subgraph, get_adjacency_matrix, prune, prune_rc} ~ fgutils.torch.utils.{_its_to_torch, its_to_torch,
+its_from_torch (+ _build_its, _its_from_torch_data, _its_from_torch_databatch), get_adjacency_matrix, prune, prune_rc}
 and fgutils.torch.graph.{node_induced_subgraph, edge_induced_subgraph}; tensors compared entry for entry
 (x, edge_index columns, edge_attr rows in half units, batch vector), decoded graphs compared exactly
 (graph_eqb: node order, attributes, adjacency order)."""
@@ -13,7 +13,7 @@ import networkx as nx
 import torch
 from torch_geometric.data import Data, Batch
 
-from fgutils.torch.utils import its_to_torch, its_from_torch, get_adjacency_matrix, prune
+from fgutils.torch.utils import its_to_torch, its_from_torch, get_adjacency_matrix, prune, prune_rc
 from fgutils.torch.graph import node_induced_subgraph, edge_induced_subgraph
 from fgutils.its import ITS
 from fgutils.torch.ITSDataset import ITSDataset
@@ -27,13 +27,13 @@ CHECKS = ["agree", "spec"]
 USES_GEN = ["ps"]
 CHUNK = 150
 CORRESPONDENCE = ("Model.Torch.{its_to_torch1,its_to_torch_list,its_from_torch,node_induced_subgraph,"
-                  "edge_induced_subgraph,get_adjacency_matrix,prune} ~ fgutils.torch.utils.{its_to_torch,"
-                  "its_from_torch,get_adjacency_matrix,prune}, fgutils.torch.graph.{node_induced_subgraph,"
+                  "edge_induced_subgraph,get_adjacency_matrix,prune,prune_rc} ~ fgutils.torch.utils.{its_to_torch,"
+                  "its_from_torch,get_adjacency_matrix,prune,prune_rc}, fgutils.torch.graph.{node_induced_subgraph,"
                   "edge_induced_subgraph}; exact tensors / exact graphs; fgutils.torch.ITSDataset with default "
                   "transforms ~ map its_to_torch1 (other ITSDataset options: Python-side invariants only)")
 RULE = ("operation in {to_torch, roundtrip, batch (1-5 members of pairwise different sizes, >= 3 members in most "
         "cases), dataset (ITSDataset of 1-4 graphs, some wrapped in ITS), from_torch on raw tensors/raw batches, "
-        "node_induced, edge_induced, prune (with/without edge_attr), adjacency}. ITS graphs: gens.rand_mol/"
+        "node_induced, edge_induced, prune (with/without edge_attr), prune_rc (two-column edge attributes), adjacency}. ITS graphs: gens.rand_mol/"
         "rand_forest (2-10 nodes, rings) with tuple labels (g,h), g,h in {0,1,1.5,2,3}, symbols from all 118 "
         "elements (multi-letter included), ids renamed by gens.reid (contiguous/offset/sparse/negative/shuffled "
         "insertion order); a few percent dirty inputs (untabulated or missing symbol, scalar or list label, no "
@@ -74,7 +74,7 @@ ORD = [0, 1, 1, 1, 2, 2, 3, 1.5, 1.5]
 ERRS = ("KeyError", "TypeError", "AssertionError", "IndexError", "AttributeError", "RuntimeError")
 EXC = (KeyError, TypeError, AssertionError, IndexError, AttributeError, RuntimeError)
 OPS = ["to_torch", "roundtrip", "roundtrip", "batch", "batch", "batch", "dataset", "from_torch", "node_induced",
-       "node_induced", "edge_induced", "edge_induced", "prune", "prune", "prune", "adjacency"]
+       "node_induced", "edge_induced", "edge_induced", "prune", "prune", "prune", "prune_rc", "prune_rc", "adjacency"]
 
 
 # ------------------------------------------------------------------ generators
@@ -199,7 +199,7 @@ def generate(seed, tier, ncases=None):
                 nn = g.number_of_nodes()
                 cols = None
             else:
-                t = rand_raw(rng, width2=(op in ("prune", "adjacency")) or rng.random() < 0.5)
+                t = rand_raw(rng, width2=(op in ("prune", "prune_rc", "adjacency")) or rng.random() < 0.5)
                 c.update(tensor=t, scheme="raw")
                 ncols, nn, cols = len(t["ei"]), len(t["x"]), t["ei"]
             c["with_ea"] = rng.random() < 0.75
@@ -240,6 +240,21 @@ def generate(seed, tier, ncases=None):
                 while not walks_ok(nn, cols, radius, start):
                     radius -= 1
                 c.update(start=start, radius=radius)
+            elif op == "prune_rc":
+                # prune_rc needs the two-column edge attributes; the start nodes (recomputed here only to keep the walk
+                # counts inside float32) are the sources of the columns whose two components differ
+                c["with_ea"] = True
+                radius = rng.choice([0, 1, 1, 2, 2, 3, 4, 5])
+                if "graph" in c:
+                    pos = {u: j for j, u in enumerate(c["graph"].nodes)}
+                    cols = [[pos[u], pos[v]] for u, v in c["graph"].edges]
+                    cols = cols + [[v, u] for u, v in cols]
+                    start = sorted({pos[x] for u, v, d in c["graph"].edges(data=True) if d["bond"][0] != d["bond"][1] for x in (u, v)})
+                else:
+                    start = sorted({col[0] for col, a in zip(c["tensor"]["ei"], c["tensor"]["ea"]) if a[0] != a[1]})
+                while not walks_ok(nn, cols, radius, start):
+                    radius -= 1
+                c.update(radius=radius)
         yield c
 
 
@@ -586,6 +601,8 @@ def run_impl(c):
     elif op == "prune":
         st = torch.tensor(list(c["start"]), dtype=torch.long)
         r = guard(lambda: prune(d, st, radius=c["radius"]))
+    elif op == "prune_rc":
+        r = guard(lambda: prune_rc(d, radius=c["radius"]))
     elif op == "adjacency":
         r = guard(lambda: get_adjacency_matrix(d))
         out["res"] = r if r[0] != "ok" else ("ok", r[1].tolist())
@@ -708,6 +725,11 @@ def coq_case(c, out):
                 if out.get("ref") is not None:
                     defs["ref"] = tdata_term(out["ref"])
                     checks["spec"] += " && res_eqb tdata_eqb $out (Ok $ref)"
+            elif op == "prune_rc":
+                model = "prune_rc $T %s" % ct.z(c["radius"])
+                # the proved-sound prune checker, for the start set the (proved) reaction-centre reading gives
+                checks["spec"] = ("match rc_start_nodes $T with Ok st => prune_domainb $T st && prune_okb $T st %s $out "
+                                  "| Err _ => false end" % ct.z(c["radius"]))
             else:
                 defs["st"] = zl(c["start"])
                 model = "prune $T $st %s" % ct.z(c["radius"])
@@ -783,7 +805,7 @@ def nontrivial(c, out):
     op = c["op"]
     if op in ("node_induced", "edge_induced"):
         return len(r[1]["ei"]) > 0
-    if op == "prune":
+    if op in ("prune", "prune_rc"):
         kept = len(r[1]["x"])
         return kept > 0 and (kept < len(out["T"][1]["x"]) or c["radius"] >= 1)
     return True
@@ -802,10 +824,12 @@ def classes(c, out):
         yield "members=%d" % len(c["graphs"])
         if len(c["graphs"]) >= 3:
             yield "members>=3"
+    if c["op"] == "prune_rc":
+        yield "radius=%d" % min(c["radius"], 4)
     if c["op"] == "prune":
         yield "radius=%d" % min(c["radius"], 4)
         yield "starts=%d" % len(c["start"])
-    if c["op"] in ("node_induced", "edge_induced", "prune", "adjacency"):
+    if c["op"] in ("node_induced", "edge_induced", "prune", "prune_rc", "adjacency"):
         yield "edge_attr=" + ("yes" if c.get("with_ea", True) else "no")
     if out.get("ref") is not None:
         yield "nx-subgraph-reference"
